@@ -210,7 +210,7 @@ Definition reserve2 (d : dstm) (n : nat) (w : world) : bool * world :=
     if fst (full_cb w) then no_space (snd (full_cb w))
     else
       let w := with_use_ts (open_cb d) (snd (full_cb w)) in
-      if gt_diff32 n (c_psize (w_c w)) (c_at (w_c w)) then (true, fail w 2) else (true, w)
+      if gt_diff32 n (c_psize (w_c w)) (c_at (w_c w)) then no_space w else (true, w)
   else (true, w).
 
 Definition reserve' (d : dstm) (w : world) (n : nat) : bool * world :=
@@ -250,6 +250,18 @@ Definition trace_ser (d : dstm) (e : ertm) (args : list val) (w : world) : world
   let w2 := ser_parts d w1 (rec_parts d e (c_last_ts (w_c w1)) args) in
   if w_err w2 then w2 else trace_commit d w2.
 
+(* after a successful reservation that moved the position: size computed again at the new
+   position (at0: the position before the reservation); false: the call ends here *)
+Definition trace_recheck (d : dstm) (e : ertm) (args : list val) (at0 : nat) (w : world) : bool * world :=
+  if c_at (w_c w) =? at0 then (true, w)
+  else match size_parts (rec_parts d e 0%Z args) (c_at (w_c w)) with
+       | None => (false, fail w 4)
+       | Some at_end2 =>
+           if gt_diff32 (at_end2 - c_at (w_c w)) (c_psize (w_c w)) (c_at (w_c w))
+           then (false, set_c (snd (no_space w)) (set_in_ts (w_c (snd (no_space w))) false))
+           else (true, w)
+       end.
+
 Definition trace_body (d : dstm) (e : ertm) (args : list val) (w : world) : world :=
   let w0 := set_c w (set_in_ts (w_c w) true) in
   match size_parts (rec_parts d e 0%Z args) (c_at (w_c w)) with
@@ -258,15 +270,42 @@ Definition trace_body (d : dstm) (e : ertm) (args : list val) (w : world) : worl
       let r := reserve d w0 (at_end - c_at (w_c w)) in
       if negb (fst r) then set_c (snd r) (set_in_ts (w_c (snd r)) false)
       else if w_err (snd r) then snd r
-      else trace_ser d e args (snd r)
+      else
+        let r2 := trace_recheck d e args (c_at (w_c w)) (snd r) in
+        if negb (fst r2) then snd r2 else trace_ser d e args (snd r2)
   end.
+
+(* the recheck either ends the call or hands the same world over to the serialization *)
+Lemma trace_recheck_true d e args at0 w : fst (trace_recheck d e args at0 w) = true -> snd (trace_recheck d e args at0 w) = w.
+Proof.
+  unfold trace_recheck. destruct (_ =? _); [reflexivity|].
+  destruct (size_parts _ _); [|discriminate]. destruct (gt_diff32 _ _ _); [discriminate|reflexivity].
+Qed.
+
+Definition recheck_discard (w : world) : world :=
+  set_c (snd (no_space w)) (set_in_ts (w_c (snd (no_space w))) false).
+
+Lemma trace_recheck_cases d e args at0 w :
+  trace_recheck d e args at0 w = (true, w) \/
+  trace_recheck d e args at0 w = (false, fail w 4) \/
+  (c_at (w_c w) <> at0 /\
+   exists a2, size_parts (rec_parts d e 0%Z args) (c_at (w_c w)) = Some a2 /\
+              gt_diff32 (a2 - c_at (w_c w)) (c_psize (w_c w)) (c_at (w_c w)) = true /\
+              trace_recheck d e args at0 w = (false, recheck_discard w)).
+Proof.
+  unfold trace_recheck. destruct (_ =? _) eqn:Ea; [left; reflexivity|].
+  apply Nat.eqb_neq in Ea.
+  destruct (size_parts _ _) as [a2|]; [|right; left; reflexivity].
+  destruct (gt_diff32 _ _ _) eqn:G; [|left; reflexivity].
+  right; right. split; [exact Ea|]. exists a2. auto.
+Qed.
 
 Lemma trace_fn_eq d e args w :
   trace_fn d e args w =
   if negb (c_enabled (w_c (trace_entry d w))) then trace_entry d w
   else trace_body d e args (trace_entry d w).
 Proof.
-  unfold trace_fn, trace_entry, trace_body, trace_ser, trace_commit, trace_mark.
+  unfold trace_fn, trace_entry, trace_body, trace_recheck, trace_ser, trace_commit, trace_mark.
   destruct (d_has_clock d).
   - rewrite let_pair.
     destruct (negb _); [reflexivity|].
@@ -294,7 +333,6 @@ Section ReserveInv.
   Hypothesis I_open : forall w, I w -> I (with_use_ts (open_cb d) w).
   Hypothesis I_close : forall w, I w -> I (with_use_ts (close_cb d) w).
   Hypothesis I_nospace : forall w, I w -> I (snd (no_space w)).
-  Hypothesis I_fail : forall w, I w -> I (fail w 2).
 
   Lemma reserve2_inv n w : I w -> I (snd (reserve2 d n w)).
   Proof.
@@ -302,7 +340,7 @@ Section ReserveInv.
     destruct (gt_diff32 n (c_psize (w_c w)) (c_at (w_c w))); [|exact H].
     cbv zeta. destruct (fst (full_cb _)); [apply I_nospace, I_full, I_close, H|].
     match goal with |- context [if ?b then _ else _] => destruct b end; cbn [snd].
-    - apply I_fail, I_open, I_full, I_close, H.
+    - apply I_nospace, I_open, I_full, I_close, H.
     - apply I_open, I_full, I_close, H.
   Qed.
 
